@@ -90,6 +90,13 @@ def check(ex, info):
         if not path or path[0] is not root or path[-1] is not e:
             fail("path-from-root-to-self", [ex.lab(root), "...", ex.lab(e)], [ex.lab(x) for x in path])
             break
+        # root, parents and path agree with one another — by identity, whatever the truthiness of the holders
+        top = chain[-1] if chain else e
+        want_path = list(reversed(chain)) + [e]
+        if e.root is not top or len(path) != len(want_path) or any(a is not b for a, b in zip(path, want_path)):
+            fail("root-parents-path-agree", {"root": ex.lab(top), "path": [ex.lab(x) for x in want_path]},
+                 {"root": ex.lab(e.root), "path": [ex.lab(x) for x in path]})
+            break
     ac = list(itertools.islice(root.all_children, G.REACH_BOUND))
     want = order[1:]
     if len(ac) != len(want) or any(a is not b for a, b in zip(ac, want)):
@@ -193,7 +200,10 @@ class C08(Property):
         "of the flat-key parser here; it belongs to C01/C02)",
         "sort keys range over {u, len(u)}",
     ]
-    rule = ("schemas nested up to 3 deep over List/Array/MultiValue/Dict/SparseDict/Integer/String with defaults; a "
+    rule = ("schemas nested up to 3 deep over List/Array/MultiValue/Dict/SparseDict/Integer/String with defaults, 30 % of "
+            "them also with DateYYYYMMDD compounds (blank / valid / unparseable / made unparseable part by part) and "
+            "JoinedStrings (prune_empty on/off, empty members) as fields and members — holders that are falsy while "
+            "they have members (oracle only); a "
             "construction route (constructor, constructor with value, set, set_default, from_defaults; set_flat/"
             "from_flat oracle-only) followed by 1-20 container calls, each aimed at the t-th reachable container "
             "(sequence op or mapping op according to its kind), with plain values, fresh Elements and Elements "
@@ -232,6 +242,22 @@ class C08(Property):
                     "ops": [{"t": 0, "m": {"op": "setitem", "k": "b", "a": {"new": {"l": ["x", "y"]}}}},
                             {"t": 0, "m": {"op": "pop", "k": "b"}}, {"t": 0, "m": {"op": "setitem", "k": "b", "a": {"pool": 0}}},
                             {"t": 0, "m": {"op": "clear"}}]})
+        # falsy holders (Scalar.__bool__): a DateYYYYMMDD that is blank / made unparseable by setting one part, and a
+        # JoinedString (prune_empty=False) whose joined text is empty, with members below them (seeded mutation
+        # C08-root-walk-truthiness: `root` walking `while element.parent:`)
+        date = {"cid": 3, "k": "date", "name": "when", "opt": False, "policy": "subset", "minreq": False, "isa": [],
+                "default": None, "subs": [_sc(4, "integer", "year"), _sc(5, "integer", "month"), _sc(6, "integer", "day")]}
+        csv = {"cid": 8, "k": "joined", "name": "csv", "opt": False, "policy": "subset", "minreq": False, "isa": [],
+               "default": None, "prune": False, "subs": [_sc(9, "string")]}
+        form = _cont(1, "dict", [_sc(2, "string", "title"), date, _cont(7, "list", [csv], name="tags")], name="form")
+        out.append({"schema": form, "nomodel": True,
+                    "init": {"route": "ctor_value", "value": {"d": [["title", "launch"], ["when", "2024-02-29"],
+                                                                      ["tags", {"l": ["a,b", "c"]}]]}},
+                    "ops": [{"t": 1, "m": {"op": "setitem", "k": "month", "a": {"v": 13}}},
+                            {"t": 2, "s": {"op": "append", "a": {"v": {"l": [""]}}}},
+                            {"t": 1, "m": {"op": "setitem", "k": "month", "a": {"v": 2}}}]})
+        out.append({"schema": form, "nomodel": True, "init": {"route": "from_flat", "pairs": [["form_title", "x"]]},
+                    "ops": [{"t": 2, "s": {"op": "append", "a": {"v": {"l": ["", ""]}}}}]})
         # oracle-only construction routes
         out.append({"schema": _cont(1, "list", [_cont(2, "dict", [_sc(3, "integer", "x")])], name="l"),
                     "init": {"route": "from_flat", "pairs": [["l_0_x", "1"], ["l_2_x", "2"], ["l_1_x", "z"]]},
@@ -248,8 +274,12 @@ class C08(Property):
         for _ in range(n):
             cid = G.Counter()
             depth = rng.choice([1, 2, 2, 3, 3])
+            falsy = rng.random() < 0.3      # trees with Compound / JoinedString nodes (falsy containers with members)
             schema = G.gen_schema(rng, cid, depth, name=rng.choice([None, "r"]),
-                                  kinds=["list", "list", "array", "multi", "dict", "sparse"])
+                                  kinds=["list", "list", "dict", "sparse", "dict", "date", "joined", "integer", "string"]
+                                  if falsy else ["list", "list", "array", "multi", "dict", "sparse"])
+            if falsy and schema["k"] in ("integer", "string"):
+                schema = G.gen_schema(rng, cid, 1, name="r", kinds=["date", "joined"])
             hostile = rng.random() < 0.15
             r = rng.random()
             case = {"schema": schema}
@@ -266,9 +296,11 @@ class C08(Property):
                 route = rng.choice(["ctor", "ctor_value", "ctor_value", "ctor_value", "set", "set", "from_defaults",
                                     "set_default"])
                 case["init"] = {"route": route, "value": G.gen_value(rng, schema, valid=not hostile)}
-            conts = [s for s in G.walk_schemas(schema) if s["k"] in G.SEQ_KINDS + G.MAP_KINDS]
-            seqs = [s for s in conts if s["k"] in G.SEQ_KINDS]
-            maps = [s for s in conts if s["k"] in G.MAP_KINDS]
+            conts = [s for s in G.walk_schemas(schema) if s["k"] in G.SEQ_KINDS + G.MAP_KINDS + ("date", "joined")]
+            seqs = [s for s in conts if s["k"] in G.SEQ_KINDS + ("joined",)]
+            maps = [s for s in conts if s["k"] in G.MAP_KINDS + ("date",)]
+            if any(s["k"] in ("date", "joined") for s in conts):
+                case["nomodel"] = True      # Compound / JoinedString are not in the Lean model: oracle only
             nops = rng.choice([1, 2, 3, 5, 8, 12, 16, 20])
             ops = []
             flat = bool(case.get("nomodel")) or rng.random() < 0.04
